@@ -294,6 +294,15 @@ def holdsC07Rx (s : SpecSt) (r : RxObs) : Bool :=
 
 def holdsC07 (own : List Nat) (t : List RxObs) : Bool := (specStates own {} t).all (fun p => holdsC07Rx p.1 p.2)
 
+/-- while the platform refuses memory a Query may go UNANSWERED - but then nothing was reported, the specification keeps
+    every pending observation (`reportedOf` of no frame is empty), and the next answer is judged against all of them:
+    an observation is never lost to a response that could not be built (round 13, seeded change C07_n) -/
+def holdsC07RxF (s : SpecSt) (r : RxObs) : Bool :=
+  if isQuery r.frame && (sends r.fx).isEmpty then true else holdsC07Rx s r
+
+def holdsC07F (own : List Nat) (t : List RxObs) : Bool :=
+  (specStates own {} t).all (fun p => if p.2.allocFault then holdsC07RxF p.1 p.2 else holdsC07Rx p.1 p.2)
+
 /-! ## C08 -/
 
 /-- bytes `off .. off+P` of `data` and whether bytes remain beyond them -/
